@@ -334,7 +334,7 @@ structure DApp where
   deriving Inhabited
 
 structure WState where
-  apps : List DApp := [{}, {}]
+  apps : List DApp := [{}, {}, {}]
   cur : Nat := 0
   chks : List (Nat × Val) := []
   deriving Inhabited
@@ -400,7 +400,8 @@ def stepWasm (st : WState) (line : String) : WState × String :=
                                        tags := (id, tag) :: (id + 1000000, creator ++ "," ++ hex chk) :: app.ch.ext.tags } } }
       (setApp st app', "id " ++ toString id)
     match a 0 with
-    | "app" => ({ st with cur := if a 1 == "2" then 1 else 0 }, "ok")
+    | "app" => ({ st with cur := if a 1 == "2" then 1 else if a 1 == "3" then 2 else 0 }, "ok")
+    | "section" => (st, "ok")
     | "bind" =>
       -- symbols are shared by both App instances
       let upd (ap : DApp) : DApp := { ap with ch := { ap.ch with ext := { ap.ch.ext with syms := (a 1, a 2) :: ap.ch.ext.syms } } }
